@@ -88,6 +88,40 @@ def nodalOpOp (j : Json) : R Json := do
       (scatterAdd (d.nel * K) (fun p => fn2 dcA (p / K) (p % K)) (fun p => fn2 el (p / K) (p % K)))
     return objJ [("n", natJ (ndof * d.nnodes)), ("y", Json.arr (out.map ratJ))]
 
+/-- `ElementOperation._sensitivity` after a response with a nodal vector of size `"usize"`; `"dy"` is `(rows, nel)` -/
+def elemOpSensOp (j : Json) : R Json := do
+  let d : Dom := ⟨← getNat j "nelx", ← getNat j "nely", ← getNat j "nelz"⟩
+  let (Rr, K, emA) ← getEM j
+  let usize ← getNat j "usize"
+  let dy ← getList (asList asRat) j "dy"
+  let dyf := matOfLists dy
+  match elemOpSens d Rr K (fn2 emA) usize dyf with
+  | .error e => throw e
+  | .ok _ =>
+    let ndof := usize / d.nnodes
+    let dcA := tab2A d.nel (d.elemnodes * ndof) (d.dofConn ndof)
+    let out := if K ≠ d.elemnodes * ndof
+      then
+        let rep := tab2A (ndof * Rr) (ndof * d.elemnodes) (repeatPerDof ndof Rr (fn2 emA))
+        tab1A usize (elemOpSensApply d.nel (fn2 dcA) (ndof * Rr) (ndof * d.elemnodes) (fn2 rep) dyf)
+      else tab1A usize (elemOpSensApply d.nel (fn2 dcA) Rr K (fn2 emA) dyf)
+    return objJ [("du", Json.arr (out.map ratJ))]
+
+/-- `NodalOperation._sensitivity`; `"dx"` is the nodal seed -/
+def nodalOpSensOp (j : Json) : R Json := do
+  let d : Dom := ⟨← getNat j "nelx", ← getNat j "nely", ← getNat j "nelz"⟩
+  let (Rr, K, emA) ← getEM j
+  let dx ← getList asRat j "dx"
+  let dxa := dx.toArray
+  match nodalOpSens d K (fn2 emA) (fun i => dxa.getD i 0) with
+  | .error e => throw e
+  | .ok _ =>
+    let ndof := K / d.elemnodes
+    let dcA := tab2A d.nel K (d.dofConn ndof)
+    let y := tab2A Rr d.nel (nodalOpSensApply (fn2 dcA) K (fn2 emA) (fun i => dxa.getD i 0))
+    return objJ [("rows", natJ Rr), ("y", matJ ratJ y)]
+
 def handlers : List (String × (Json → R Json)) :=
-  [("c12.em", emOp), ("c12.elemop", elemOpOp), ("c12.nodalop", nodalOpOp)]
+  [("c12.em", emOp), ("c12.elemop", elemOpOp), ("c12.nodalop", nodalOpOp),
+   ("c12.elemop_sens", elemOpSensOp), ("c12.nodalop_sens", nodalOpSensOp)]
 end PymotoVerif.Drv.C12
